@@ -32,8 +32,10 @@ using bgray7_img = gil::bit_aligned_image1_type<7, gil::gray_layout_t, alloc_t>:
 
 template <class V> static void touch(V const& t) {
     int w = (int)t.width(), h = (int)t.height();
+    if (w == 0 || h == 0) return;   // an empty view has no pixel to access: the query then checks the creation path only (allocator ledger, bounds of fill)
     int x, y; vp_coord(w, h, x, y);
     typename V::value_type p; vp_fill(&p, sizeof p);
+    vp_assume(p == p);              // float channels: the written value is not a NaN (a NaN never compares equal to what is read back)
     typename V::value_type r = t(x, y);
     t(x, y) = p;
 #ifndef TOUCH_LEVEL
